@@ -6,6 +6,9 @@ import os
 V = os.path.dirname(os.path.dirname(os.path.abspath(__file__)))
 
 CHECKS = {
+    "C07": dict(cat="model_checking", ref="§3.5 ObjArray, §3.6, §4 C07", tech="TLA+ ObjArray.tla (array exotic object incl. ArraySetLength) model-checked by TLC; every transition replayed on dense / forced-sparse / sparse->dense twin arrays under order-preserving index embeddings",
+                text="TLC exhaustively explores ObjArray.tla — ECMA-262 10.4.2 array [[DefineOwnProperty]] on indices and on length (ArraySetLength with partial truncation at non-configurable elements, non-writable length), OrdinarySet/Get/Has/Delete through a prototype carrying indexed data and accessor properties, freeze/seal — checking LenBound/Essential/NoGrow on the model; every transition is replayed on real arrays in lock-step variants: dense, forced sparse (empty sparseArrayObject), sparse->dense (history), a live sparse array that switches to dense storage in the middle of an operation, and under 7 index embeddings (up to 2^32-2) that make arrays cross the dense->sparse threshold mid-sequence.",
+                note="Trusts TLC, the JS adaptor harness/adaptors/objarray.js running in goja, and the white-box storage-kind tag. Bounds: 3 abstract indices, 6 element descriptors, lengths 0..3. Array.prototype methods (ArrayOps.tla) are added separately; until then the method half of C07 is not claimed."),
     "C04": dict(cat="model_checking", ref="§3.5, §4 C04", tech="TLA+ Obj.tla (+ObjBase) model-checked by TLC; every generated transition replayed on real objects of ~30 kinds x 9 key mappings (edge replay)",
                 text="TLC exhaustively explores Obj.tla — ECMA-262 ordinary-object internal methods incl. ValidateAndApplyPropertyDescriptor over all 729 descriptor shapes, OrdinarySet with every receiver, own-key order, integrity levels, prototype surgery — checking the essential invariants (Essential, NoGrow, OrderOK, Frame) on the model; every transition is then replayed on real goja objects of each kind (plain, function kinds, class, arrays for non-index keys, arguments, String, typed array, Error/Date/RegExp/Map/Promise, lazily materialised Math/JSON, global object) with each key mapping (string, symbol, index, 2^32-1, '-0', fractional, unicode) and each issuer (Object.*, Reflect.*, sloppy/strict syntax, Go API), comparing result and full descriptor/extensibility/prototype/key-order projection after every step.",
                 note="Trusts TLC, the JS adaptor (harness/adaptors/obj.js) running inside goja, and the natives for the Go-API issuer. Bounds: 1-3 objects, 1 key (6 for ordering), values {v1,v2,undefined}, one getter/setter function. Exotic index/length behaviour is covered by ObjArray/ObjTyped/ObjArgs/ObjString configs as they are added."),
